@@ -47,12 +47,18 @@ TPLS = {
     "condext": "{% if parent %}{% extends parent %}{% endif %}{% block body %}E{{ af(6) }}{{ super() }}{% endblock %}",
     "condext2": "{% if xs %}{% extends 'child' %}{% else %}{% extends 'base' %}{% endif %}{% block head %}F{{ af(7) }}{{ super() }}{% endblock %}",
     "importforms": "{% from 'macros' import m %}{% import 'macros' as lib with context %}{{ m(1) }}{% call lib.m(2) %}{% include 'leaf' ignore missing %}{% endcall %}",
+    # loop data that is a synchronous generator object / a plain iterator / a dict view: the adapter the async loop puts around it
+    # must not be something that needs closing
+    "syncgen": "{% for x in sg(xs) %}{{ af(x) }}{% for y in it(xs) %}{{ y }}{{ af(y) }}{% endfor %}{% else %}E{{ af(0) }}{% endfor %}"
+               "{% for x in sg(xs) recursive %}{{ loop.index }}{{ af(x) }}{% endfor %}{% for k, v in dv(xs) %}{{ af(k) }}{% endfor %}",
+    "syncgen2": "{% extends 'base' %}{% block body %}{% for x in sg(xs) %}{% include 'leaf' %}{{ loop.last }}{% endfor %}{{ super() }}{% endblock %}",
     # constructs known (on the unchanged tree) to leave helper generators open on early exit: kept in separate templates
     "loopfilter": "{% for x in ait(xs) if x > 0 %}{{ af(x) }}{% endfor %}",
     "afilters": "{{ ait(xs)|map('string')|join(',') }}{{ af(1) }}{% for v in ait(xs)|select('odd') %}{{ af(v) }}{% endfor %}",
     "afirst": "{{ ait(xs)|first }}{{ af(1) }}",
 }
 MAIN = ["base", "child", "grand", "usemac", "loops", "setfilter", "page", "page2", "incloop", "dynext", "incforms", "condext", "condext2", "importforms",
+        "syncgen", "syncgen2",
         "loopfilter", "afilters", "afirst"]
 KNOWN_LEAKY = {"loopfilter", "afilters"}
 P = {}
@@ -131,7 +137,8 @@ def scenario_native(name, mode, k, nitems):
             ctl = Ctl(raise_at=k if mode == "raise" else None)
             # a fresh Environment per scenario: module caches must not hide generators
             env = Environment(loader=DictLoader(TPLS), enable_async=True)
-            env.globals.update(af=ctl.af, ait=ctl.ait)
+            env.globals.update(af=ctl.af, ait=ctl.ait, sg=lambda xs: (x for x in xs), it=lambda xs: iter(list(xs)),
+                               dv=lambda xs: {x: x for x in xs}.items())
             t = env.get_template(name)
             ctx = dict(xs=list(range(1, nitems + 1)), parent="base")
             if mode in ("complete", "cancel", "raise"):
